@@ -88,9 +88,6 @@ def BinOp.code : BinOp → Nat
 def UnOp.code : UnOp → Nat
   | .neg => 0x09 | .not => 0x14
 
-def ChunkKind.rank : ChunkKind → Nat
-  | .char => 1 | .word => 2 | .item => 3 | .line => 4
-
 def PutMode.hi : PutMode → Nat
   | .into => 0x10 | .after => 0x20 | .before => 0x30
 
@@ -630,6 +627,12 @@ def compileM (s : Script) (scrNum : Nat) : M Compiled := do
 def compile (o : Options) (s : Script) : Except String Compiled :=
   match compileM s o.scrNum { names := o.pre, consts := [] } with
   | .ok (c, _) => .ok c
+  | .error e => .error e
+
+/-- one handler compiled on its own (constant pool restarted; name table and local-handler numbering as given) -/
+def compileHandlerAlone (names : List Name) (handlers : List Name) (h : Handler) : Except String Bytes :=
+  match lowerHandler handlers h { names, consts := [] } with
+  | .ok (c, _) => .ok c.code
   | .error e => .error e
 
 end Drx.Spec
